@@ -26,6 +26,12 @@ func runStoreForward(c *sim.RunCtx, o *storeRunOpts) *storeWorld {
 	cfg := o.cfg
 	objs := drawObjects(t, cfg, o.wo.Objects, o.wo.Composite)
 	canon := canonicalise(objs)
+	if c.Tier == "thorough" && t.Chance(1, 4) {
+		// thorough tier: a quarter of the runs are three times as long (more
+		// rotations and deeper interleavings per store), the rest stay short
+		o.wo.OpsPerClient *= 3
+		c.Count("long_runs", 1)
+	}
 	clients := drawOps(t, cfg, objs, canon, o.wo)
 	seed := int64(t.Choose(1 << 30))
 	c.Sample["config"] = cfg.String()
